@@ -345,6 +345,8 @@ def main(argv):
             for f in r["functions"]:
                 if not (unit_serves_all or serves(set(f["labels"]), pid)):
                     continue
+                if f.get("trusted"):
+                    trusted.add(f"{r['unit']}::{f['fn']} (real body, contract assumed: external_body)")
                 obligations += f["obligations"]
                 if f["verified"]:
                     discharged += f["obligations"]
